@@ -106,11 +106,25 @@ def nondefault_vector(method):
     out = []
     for dom in domains(method):
         out.append(dom[min(2, len(dom) - 1)] if len(dom) > 1 else dom[0])
-    # prefer the rich table for table arguments
+    # table arguments: the rich table for three classes, compact ones for
+    # the rest (keeps the corruption spaces of K_rep small)
     for i, (_n, wire_type, _d) in enumerate(method.args):
         if wire_type == 'table':
-            out[i] = A.rich_table()
+            if method.name in ('Connection.Start', 'Queue.Declare',
+                               'Basic.Consume'):
+                out[i] = A.rich_table()
+            else:
+                out[i] = REP_TABLES[method.index % len(REP_TABLES)]
     return tuple(out)
+
+
+REP_TABLES = [
+    {'a': [1, {'b': 'x'}], 'k': A.D('-1.5'), 't': A.dt(1600000000)},
+    {'x-max-length': 70000, 'flag': True, 'n': None, 'f': 1.5},
+    {'é': bytearray(b'\x00\xce'), 'neg': -129, 'big': 2**40,
+     'arr': [[], {}]},
+    A.deep_table(4),
+]
 
 
 def is_default(method, vec):
